@@ -28,7 +28,7 @@ ASSUMPTIONS = [
 
 def RULE(tier):
     return (
-        f"(h) ALL histories to depth {DEPTH[tier]} over ops create(token None|'t'|'u'), pickle round trip(i), copy.copy(i), copy.deepcopy(i), dumps(i) into one of 2 blob slots, loads(blob) (also after every object of the lock died), del i + gc, "
+        f"(h) ALL histories to depth {DEPTH[tier]} over ops create(token None | 't' | an int | the decimal string of that int), pickle round trip(i), copy.copy(i), copy.deepcopy(i), dumps(i) into one of 2 blob slots, loads(blob) (also after every object of the lock died), del i + gc, "
         f"acquire(i, blocking=False), release(i) on <= {MAXH} live handles; after every step acquire/locked of EVERY handle is compared with the model (same class <=> "
         "same mutual exclusion). (t) ALL interleavings of 2 and 3 logical threads [obtain own copy, acquire, read counter, write counter+1, release] for every assignment "
         "of threads to locks (copies by pickle/copy/equal token, separate locks): threads of one class never overlap in the critical section and lose no update; a thread "
@@ -60,7 +60,7 @@ class LockSystem:
     def enabled(self):
         ops = []
         if len(self.h) < MAXH:
-            ops += [("create", None), ("create", "t"), ("create", "u")]
+            ops += [("create", None), ("create", "t"), ("create", "int"), ("create", "intstr")]
             for i in range(len(self.h)):
                 ops += [("pickle", i), ("copy", i), ("deepcopy", i)]
             for b in range(len(self.blobs)):
@@ -85,7 +85,9 @@ class LockSystem:
         k = op[0]
         if k == "create":
             tok = op[1]
-            l = self.SL(None if tok is None else f"{tok}-{self.sid}")
+            # "int" is an integer token, "intstr" the DIFFERENT token that is its decimal string (both unique per system)
+            real = None if tok is None else (10**6 + self.sid if tok == "int" else (str(10**6 + self.sid) if tok == "intstr" else f"{tok}-{self.sid}"))
+            l = self.SL(real)
             if tok is None:
                 tid = self.ntok
                 self.ntok += 1
@@ -261,7 +263,7 @@ def run_threads(cfg, chooser, ctx=None):
 
 
 def shards(tier):
-    out = [("hist", p) for p in (("create", None), ("create", "t"))]
+    out = [("hist", p) for p in (("create", None), ("create", "t"), ("create", "int"))]
     out += [("threads", i) for i in range(len(thread_configs()))]
     return out
 
